@@ -1,6 +1,7 @@
 """C15 -- queries and derived views agree with their definitions."""
 import re
-from .. import core, gen
+import sys
+from .. import core, gen, obshist
 
 ID = "C15"
 MODULE = "Check.C15Check"
@@ -297,3 +298,16 @@ def shrinks(case):
 
 def finding_match(case, r, kind, why, findings):
     return None
+
+
+def _obs_term(kind, state, st, res):
+    if "ok" not in res:
+        return None
+    ct = core.citier if kind == "I" else core.cptier
+    if st["op"] == "timestamps":
+        return "Ts%s %s %s" % (kind, ct(state), core.clist([core.cz(x) for x in res["ok"]["list"]], "Z"))
+    return "Find%s %s %s %s %s" % (kind, ct(state), core.ctext(st["args"]["q"]), core.cbool(st["args"]["substr"]),
+                                  core.clist(["%d%%nat" % k for k in res["ok"]["list"]], "nat"))
+
+
+obshist.install(sys.modules[__name__], ["timestamps", "find"], ["timestamps", "find"], _obs_term)
